@@ -489,6 +489,11 @@ func (m *monitor) runDeleter(n *node) {
 	for _, id := range before {
 		if e, bad := n.tm.deleteErrs[id]; bad && !strings.Contains(e, spacestorage.ErrTreeStorageAlreadyDeleted.Error()) && !strings.Contains(e, synctree.ErrSyncTreeDeleted.Error()) {
 			w.count("deleter.skipped_tree_manager_error", 1)
+			// the tree could not be deleted: the id must not be declared deleted while its storage is still there
+			if n.status(id) == headstorage.DeletedStatusDeleted && n.hasStorage(id) {
+				m.violate("deleter:marked-deleted-although-tree-delete-failed", "the tree manager reported an error for an id, yet the id was marked deleted and left the queue while its storage still exists",
+					map[string]any{"node": n.idx, "id": w.label(id), "tree_manager_error": e})
+			}
 			continue
 		}
 		st := n.status(id)
